@@ -69,6 +69,24 @@ def _trees_for(g: gen.Gen, spec: describe.StructSpec, prop: str, tier_: str) -> 
     return trees
 
 
+class _Interrupt(BaseException):
+    """Stands in for KeyboardInterrupt (not an Exception, so `except Exception` clean-up code does not see it)."""
+
+
+class _InterruptedAt:
+    """A source whose read is interrupted once it would pass `cut`."""
+
+    def __init__(self, data: bytes, cut: int) -> None:
+        self._data, self._pos, self._cut = data, 0, cut
+
+    def read(self, n: int = -1) -> bytes:
+        if n < 0 or self._pos + n > self._cut:
+            raise _Interrupt
+        out = self._data[self._pos:self._pos + n]
+        self._pos += n
+        return out
+
+
 def failed_call_noise(res: Result, cls: type, spec: describe.StructSpec, tree: dict, rng) -> None:  # noqa: ANN001
     """History noise: a decode and an encode of the same class that fail part-way (truncated input, sink error at a random
     write call).  Whatever they raise is not this check's business; what matters is that the *next* case is unaffected."""
@@ -93,9 +111,16 @@ def failed_call_noise(res: Result, cls: type, spec: describe.StructSpec, tree: d
                 if len(own) >= 2:
                     cut = rng.choice(own[1:]) + rng.choice((0, 1))
                     res.count("failed_call_noise_inside_tagged_section")
-                    entity_reader(cls)(io.BytesIO(wire[:cut]))
-        except Exception:  # noqa: BLE001
-            pass
+                    if rng.random() < 0.5:
+                        entity_reader(cls)(io.BytesIO(wire[:cut]))
+                    else:
+                        # the same cut, but the read is *interrupted* (a BaseException, as Ctrl-C during a blocking read) instead of
+                        # coming back short
+                        res.count("failed_call_noise_interrupted")
+                        entity_reader(cls)(_InterruptedAt(wire, cut))
+        except BaseException as exc:  # noqa: BLE001
+            if isinstance(exc, (SystemExit, MemoryError)):
+                raise
     try:
         inst = describe.tree_to_instance(spec, tree)
         probe = WriteOnlySink()
